@@ -91,6 +91,8 @@ def op_obl(ids):
         "drop.done": K("op.drop.done", "op.rs", O + "drop_done", "OpState::drop, Done: no cancel; freed once; resources dropped once", ["io_uring::op::State::drop", "io_uring::op::drop_state"]),
         "drop.done.waker": K("op.drop.done.waker", "op.rs", O + "drop_done_with_waker", "same with a waker stored", ["io_uring::op::State::drop"]),
         "drop.complete": K("op.drop.complete", "op.rs", O + "drop_complete", "OpState::drop, Complete: no cancel; freed once; resources (already moved out) NOT dropped again", ["io_uring::op::State::drop", "io_uring::op::drop_state"]),
+        "drop.rg.first": K("op.drop.rg.first_lock", "op.rs", O + "drop_rg_first_lock", "rely/guarantee for OpState::drop: the completion handler processes this op's final completion right before drop takes the op lock => drop sees Done and reclaims the state itself, exactly once", ["io_uring::op::State::drop"], kind="rely-guarantee"),
+        "drop.rg.later": K("op.drop.rg.later_lock", "op.rs", O + "drop_rg_later_lock", "rely/guarantee for OpState::drop: interference (final completion processed) at any LATER acquisition of the op lock inside drop - the status check and the Dropped store must happen under one acquisition (no check-then-act window); otherwise the state would be left Dropped with no completion to come", ["io_uring::op::State::drop"], kind="rely-guarantee"),
         "drop_state": K("op.drop_state", "op.rs", O + "drop_state_deferred", "drop_state (the erased destructor process calls with user_data & TAG_MASK): frees the box exactly once and drops the abandoned op's resources exactly once", ["io_uring::op::drop_state"]),
         "poll.not_started": K("op.poll.not_started", "op.rs", O + "poll_not_started", "first poll, all ring counters: Pending; room => exactly one entry == fill_submission output + own user_data, Running, this poll's waker stored; full => NotStarted, waker registered in blocked_futures, ring untouched", OPFN + ["io_uring::sq::Submissions::wait_for_submission"]),
         "poll.running.none": K("op.poll.running.none", "op.rs", O + "poll_running_single_none", "re-poll of a running singleshot (no waker stored, e.g. consumed by a non-final wake): Pending, waker stored, no submission, result untouched", OPFN + ["io_uring::op::set_waker"]),
@@ -123,7 +125,7 @@ P["C01"] = {
     ],
     "trusted_base": OPTRUST,
     "assumptions": ["'static bound on Buf/BufMut/BufSlice/BufMutSlice and the &'fd AsyncFd borrow are type-level (rustc), not re-proved"],
-    "obligations": op_obl(["state_new", "update.single", "update.multi.dropped", "drop.not_started", "drop.running", "drop.running.waker", "drop.done", "drop.done.waker", "drop.complete", "drop_state", "poll.done.ok", "poll.done.restart", "poll.done.err", "poll_next.done", "process.running"]),
+    "obligations": op_obl(["state_new", "update.single", "update.multi.dropped", "drop.not_started", "drop.running", "drop.running.waker", "drop.done", "drop.done.waker", "drop.complete", "drop.rg.first", "drop.rg.later", "drop_state", "poll.done.ok", "poll.done.restart", "poll.done.err", "poll_next.done", "process.running"]),
 }
 P["C02"] = {
     "level_text": "Proof: dispatch (Completion::process on real states: pointer + tag, second operation untouched), storage (Shared::update: last-writer except NOTIF; multishot append-in-order) and delivery (poll_inner: head of queue, end-of-stream exactly once, panic on re-poll after completion) are each proved by CBMC on the real functions for all result/flag values and all ring counters; the real Multishot container is proved FIFO for unbounded length by Verus on the extracted functions.",
@@ -171,7 +173,7 @@ P["C06"] = {
     "trusted_base": OPTRUST,
     "assumptions": [],
     "obligations": [K("c06.cancel.encoding", "sq.rs", S + "c06_cancel_encoding", "Submissions::cancel(ud): ASYNC_CANCEL, addr == ud, CANCEL_USER_DATA, CQE_SKIP_SUCCESS, every other byte zero; QueueFull => nothing written", ["io_uring::sq::Submissions::cancel"])]
-        + op_obl(["drop.not_started", "drop.running", "drop.running.waker", "drop.done", "drop.done.waker", "drop.complete", "drop_state", "update.single", "update.multi.dropped", "poll_next.done"]) + [
+        + op_obl(["drop.not_started", "drop.running", "drop.running.waker", "drop.done", "drop.done.waker", "drop.complete", "drop.rg.first", "drop.rg.later", "drop_state", "update.single", "update.multi.dropped", "poll_next.done"]) + [
         K("c05.process.reserved", "cq.rs", C + "c05_process_reserved", "cancel acknowledgements (reserved user_data 2, any result) are ignored", ["io_uring::cq::Completion::process"]),
     ],
 }
@@ -236,6 +238,86 @@ P["C07"] = {
         K("c07.wrap.to_direct", "fd.rs", F + "c07_wrap_to_direct", "ToDirectOp::map_ok: the index written back becomes one Direct AsyncFd", ["io_uring::fd::ToDirectOp::map_ok"]),
         K("c07.wrap.to_fd", "fd.rs", F + "c07_wrap_to_fd", "ToFdOp: FIXED_FD_INSTALL of this direct descriptor; result one regular AsyncFd; original keeps its descriptor", ["io_uring::fd::ToFdOp::fill_submission", "io_uring::fd::ToFdOp::map_ok"]),
         K("c07.abandoned.socket", "net_uring.rs", N + "c07_abandoned_socket", "descriptor returned for an abandoned (dropped while in flight) socket operation is closed  [KNOWN FINDING F9]", ["io_uring::op::Shared::update", "io_uring::op::drop_state"]),
+    ],
+}
+
+UIO = "io_uring::io::verif_uio::"
+RB = "io::read_buf::verif_read_buf::"
+TR = "io::traits::verif_traits::"
+NA = "net::verif_netaddr::"
+P["C08"] = {
+    "level_text": "Proof on the real code: the kernel-chosen buffer id in a completion is turned into an owned slice of exactly that slot (ReadOp/MultishotReadOp decoders, init_buffer); ReadBufPool::release re-offers exactly the slot the pointer belongs to (id recomputed from the unchanged base pointer), writes the entry at tail & mask and advances the 16-bit tail by one, for every tail value incl. the wrap and whatever other releasers did before the lock was obtained, leaving all other ring entries, buffers and canaries untouched; ReadBuf::release/Drop give the buffer back exactly once (Option::take).",
+    "level_note": "Pool geometry fixed at 4 buffers x 8 bytes in the harnesses (bounded: the index arithmetic (ptr - base) / buf_size is size-generic; a Verus lemma for all sizes is listed in DESIGN.md). KNOWN FINDING F10 (same root cause as F9): a buffer id delivered to an abandoned operation is never re-offered. ReadBufPool::new/Drop (allocation, registration) are C12/C18-style resource obligations, not yet under contract. Observation outside the tools' reach: release() writes the whole io_uring_buf including `resv`, which for entry 0 overlays the ring tail - the tail is transiently 0 until the final store (visible only to a concurrently reading kernel).",
+    "functions": [
+        {"file": "src/io_uring/io.rs", "fn": r"pub\(crate\) unsafe fn init_buffer\("},
+        {"file": "src/io_uring/io.rs", "fn": r"pub\(crate\) unsafe fn release\(&self, ptr: NonNull<\[u8\]>\)"},
+        {"file": "src/io/read_buf.rs", "fn": r"pub fn release\(&mut self\)"},
+    ],
+    "trusted_base": [KERNEL, SC, MUTEX, KANIBUG],
+    "assumptions": ["kernel contract: F_BUFFER => id < pool_size and n <= buf_size", "conservation over whole histories (Kernel + Limbo + Owned is a partition) is the chain of these per-step contracts; the chaining lemma is argued in DESIGN.md, not machine-checked"],
+    "obligations": [
+        K("c08.init_release.roundtrip", "uio.rs", UIO + "c08_init_release_roundtrip", "init_buffer(id, n) == slot id, n bytes; release(ptr with any edited length) writes (base+id*bs, bs, id) at tail & mask, tail+1 (all u16 tails), other entries/canaries untouched", ["io_uring::io::ReadBufPool::init_buffer", "io_uring::io::ReadBufPool::release"], bounded="pool 4 x 8 bytes"),
+        K("c08.release.rg", "uio.rs", UIO + "c08_release_rg", "release under interference at the re-register lock: entry written at the tail observed under the lock, tail advances from there", ["io_uring::io::ReadBufPool::release"], kind="rely-guarantee", bounded="pool 4 x 8 bytes"),
+        K("c08.readbuf.release_once", "read_buf.rs", RB + "c08_readbuf_release_once", "ReadBuf::release then release/Drop: exactly one buffer re-offered, and it is this ReadBuf's slot; released ReadBuf owns nothing", ["io::read_buf::ReadBuf::release", "io::read_buf::<impl Drop for ReadBuf>::drop"], bounded="pool 4 x 8 bytes"),
+        K("c08.map.read", "uio.rs", UIO + "c13_enc_read_pool", "ReadOp with a pool buffer: BUFFER_SELECT from the pool's group; F_BUFFER id => the ReadBuf owns exactly slot id with len n", ["io_uring::io::ReadOp::fill_submission", "io_uring::io::ReadOp::map_ok", "io::read_buf::ReadBuf::buffer_init"], bounded="pool 4 x 8 bytes"),
+        K("c08.map.multishot_read", "uio.rs", UIO + "c08_map_multishot_read", "MultishotReadOp: one ReadBuf per result owning the kernel-chosen slot; no F_BUFFER => empty ReadBuf that gives nothing back", ["io_uring::io::MultishotReadOp::map_next", "io::read_buf::ReadBufPool::new_buffer"], bounded="pool 4 x 8 bytes"),
+    ],
+}
+P["C14"] = {
+    "level_text": "Proof on the real trait impls: the generic wrappers (LimitedBuf over BufMut/Buf/BufMutSlice/BufSlice) and the macro-generated tuple impls for EVERY arity 2..=8, plus arrays N<=3, are instantiated with an instrumented buffer whose pointer, capacity and fill level are fully symbolic: pointer/length pairs are the inner buffers' own, lengths/spare capacities agree with them, set_init(n) appends exactly n front to back, and the limit is never exceeded for every limit in the full usize range; Vec<u8> and the read-only buffer types are checked on real allocations.",
+    "level_note": "Buffers whose total size exceeds u32::MAX are excluded by precondition (io_uring lengths are u32); arrays [B; N] with N > 3 and String/Box<str>/Arc impls are not run (same one-line bodies as the checked ones); SkipBuf/ReadNBuf wrappers are covered under C10.",
+    "functions": [
+        {"file": "src/io/traits.rs", "fn": r"unsafe fn parts_mut\(&mut self\) -> \(\*mut u8, u32\) \{\n        // SAFETY: reposibilities"},
+    ],
+    "trusted_base": [KANIBUG],
+    "assumptions": [],
+    "obligations": [
+        K("c14.limited.bufmut", "traits.rs", TR + "c14_limited_bufmut", "LimitedBuf<B: BufMut>, every usize limit: parts_mut == (inner ptr, min(spare, limit)); spare_capacity/has_spare_capacity agree; set_init(n) appends exactly n and consumes n of the limit", ["io::traits::LimitedBuf::parts_mut", "io::traits::LimitedBuf::set_init", "io::traits::LimitedBuf::spare_capacity", "io::traits::LimitedBuf::has_spare_capacity"]),
+        K("c14.limited.buf", "traits.rs", TR + "c14_limited_buf", "LimitedBuf<B: Buf>, every usize limit: parts == (inner ptr, min(len, limit)); len/is_empty agree", ["io::traits::LimitedBuf::parts", "io::traits::LimitedBuf::len", "io::traits::LimitedBuf::is_empty"]),
+        K("c14.limited.slice_mut", "traits.rs", TR + "c14_limited_slice_mut", "LimitedBuf over a 2-buffer BufMutSlice: iovecs clamped front to back, total == min(total, limit)", ["io::traits::LimitedBuf::as_iovecs_mut", "io::traits::LimitedBuf::total_spare_capacity"]),
+        K("c14.limited.slice", "traits.rs", TR + "c14_limited_slice", "LimitedBuf over a 2-buffer BufSlice likewise", ["io::traits::LimitedBuf::as_iovecs", "io::traits::LimitedBuf::total_len"]),
+    ] + [K("c14.tuple.%d" % n, "traits.rs", TR + "c14_tuple_%d" % n, "tuple of %d buffers: iovecs elementwise, totals are sums, set_init(n) fills front to back, exactly n in total" % n, ["io::traits::<impl BufMutSlice/BufSlice for tuples>"], tier=("quick" if n <= 5 else "thorough")) for n in range(2, 9)]
+      + [K("c14.array.%d" % n, "traits.rs", TR + "c14_array_%d" % n, "array [B; %d] likewise (generic loops)" % n, ["io::traits::<impl BufMutSlice/BufSlice for [B; N]>"]) for n in (1, 2, 3)] + [
+        K("c14.vec", "traits.rs", TR + "c14_vec", "Vec<u8>: parts_mut == uninitialised tail of the allocation; set_init(n) == set_len(len+n), no reallocation; Buf side == initialised prefix", ["io::traits::<impl BufMut for Vec<u8>>", "io::traits::<impl Buf for Vec<u8>>"], bounded="capacity <= 8"),
+        K("c14.bufs", "traits.rs", TR + "c14_bufs", "&'static [u8] / &'static str / StaticBuf / Box<[u8]> / Cow<[u8]> / Cow<str>: parts == (own bytes, length), len/is_empty agree", ["io::traits::<impl Buf for ...>"], bounded="length <= 4"),
+    ],
+}
+P["C15"] = {
+    "level_text": "Proof of single-step differential contracts on the real ReadBuf methods from an arbitrary valid state (symbolic contents and fill level of a real pool slot placed between a neighbouring slot and canary bytes): remove with every range form equals Vec::drain semantics index by index; truncate/clear/set_len only rewrite the length; extend_from_slice appends in order or refuses without change when it would exceed the slot; spare_capacity_mut is exactly the unused tail; nothing outside the slot is touched and the base pointer (which release uses to recompute the slot) never changes. Any sequence of edits is a chain of these steps.",
+    "level_note": "Slot size fixed at 8 bytes (bounded), all fill levels 0..=8 and all positions. Invalid ranges are shown to panic (should_panic harness); 'without modifying anything' after the panic is not observable in Kani. Release-only behaviour of `idx + 1` for usize::MAX bounds (F12) is not decided: Kani checks debug-build semantics where it panics.",
+    "functions": [
+        {"file": "src/io/read_buf.rs", "fn": r"pub fn remove<R: RangeBounds<usize>>\(&mut self, range: R\)"},
+        {"file": "src/io/read_buf.rs", "fn": r"pub fn extend_from_slice\(&mut self, other: &\[u8\]\)"},
+        {"file": "src/io/read_buf.rs", "fn": r"pub fn truncate\(&mut self, len: usize\)"},
+    ],
+    "trusted_base": [KANIBUG],
+    "assumptions": [],
+    "obligations": [
+        K("c15.remove", "read_buf.rs", RB + "c15_remove_range", "ReadBuf::remove for a..b, a..=b, ..b, a.., ..: contents == before[..a] ++ before[b..], len shrinks by b-a; neighbours/canaries/base pointer untouched", ["io::read_buf::ReadBuf::remove"], bounded="slot size 8"),
+        K("c15.remove.invalid", "read_buf.rs", RB + "c15_remove_invalid_panics", "start > end or end > len: rejected (panic)", ["io::read_buf::ReadBuf::remove"], bounded="slot size 8"),
+        K("c15.len_edits", "read_buf.rs", RB + "c15_len_edits", "truncate / clear / set_len / spare_capacity_mut: new length as for Vec, common prefix unchanged, spare == unused tail of the slot, BufMut view agrees", ["io::read_buf::ReadBuf::truncate", "io::read_buf::ReadBuf::clear", "io::read_buf::ReadBuf::set_len", "io::read_buf::ReadBuf::spare_capacity_mut"], bounded="slot size 8"),
+        K("c15.extend", "read_buf.rs", RB + "c15_extend", "extend_from_slice: appended in order when it fits, Err and unchanged when it would exceed the slot", ["io::read_buf::ReadBuf::extend_from_slice"], bounded="slot size 8"),
+        K("c08.readbuf.release_once", "read_buf.rs", RB + "c08_readbuf_release_once", "the slot given back on release is this ReadBuf's own, whatever its edited length", ["io::read_buf::ReadBuf::release"], bounded="pool 4 x 8 bytes"),
+        K("c08.init_release.roundtrip", "uio.rs", UIO + "c08_init_release_roundtrip", "release recomputes the slot from the (unchanged) base pointer for any edited length", ["io_uring::io::ReadBufPool::release"], bounded="pool 4 x 8 bytes"),
+    ],
+}
+P["C16"] = {
+    "level_text": "Proof (loop-free, full domain) that every IPv4, IPv6 and either-family address - all address bits, ports, flow labels, scope ids - survives into_storage -> init with the length the kernel reports, and that as_ptr/as_mut_ptr cover exactly the family's struct. Unix-domain path names, abstract names (incl. embedded NULs) and the unnamed address round-trip with the kernel-reported lengths for names up to 4 bytes.",
+    "level_note": "Unix names bounded at 4 bytes (the real maximum is 107/108): std's own sockaddr_un code dominates the cost. KNOWN FINDING F8: as_ptr always passes sizeof(sockaddr_un), so abstract names are bound/connected padded to 107 bytes (kernel semantics assumed: abstract names are length-delimited).",
+    "functions": [
+        {"file": "src/net.rs", "fn": r"unsafe fn init\(storage: MaybeUninit<Self::Storage>, length: u32\) -> Self \{\n        debug_assert!\(length as usize >= size_of::<libc::sa_family_t>\(\)\);\n        let family = unsafe \{ ptr::addr_of"},
+    ],
+    "trusted_base": [KANIBUG, "lengths reported by Linux for AF_UNIX addresses: offsetof(sun_path)+strlen+1 (path), +1+n (abstract), 2 (unnamed)"],
+    "assumptions": [],
+    "obligations": [
+        K("c16.v4", "net_mod.rs", NA + "c16_v4", "SocketAddrV4: init(into_storage(a), sizeof(sockaddr_in)) == a for all ip/port; as_ptr/as_mut_ptr == (storage, sizeof(sockaddr_in))", ["net::<impl SocketAddress for SocketAddrV4>"]),
+        K("c16.v6", "net_mod.rs", NA + "c16_v6", "SocketAddrV6 likewise incl. flowinfo and scope id", ["net::<impl SocketAddress for SocketAddrV6>"]),
+        K("c16.either", "net_mod.rs", NA + "c16_either", "SocketAddr: v4 through the v6-sized storage; as_ptr length is the address' own family size", ["net::<impl SocketAddress for SocketAddr>"]),
+        K("c16.unix.path", "net_mod.rs", NA + "c16_unix_path", "Unix path name: init(into_storage(a), offsetof+strlen+1) == a, and with the length excluding the NUL", ["net::<impl SocketAddress for unix::net::SocketAddr>::init", "::into_storage"], bounded="name length <= 4", tier="thorough"),
+        K("c16.unix.path_len", "net_mod.rs", NA + "c16_unix_path_len", "Unix path name: as_ptr covers the name and its terminator inside the structure; storage NUL-terminated", ["net::<impl SocketAddress for unix::net::SocketAddr>::as_ptr", "::into_storage"], bounded="name length <= 4"),
+        K("c16.unix.abstract", "net_mod.rs", NA + "c16_unix_abstract", "Unix abstract name (any bytes): init(into_storage(a), offsetof+1+n) == a", ["net::<impl SocketAddress for unix::net::SocketAddr>::init"], bounded="name length <= 4", tier="thorough"),
+        K("c16.unix.unnamed", "net_mod.rs", NA + "c16_unix_unnamed", "unnamed address round-trips with length 2", ["net::<impl SocketAddress for unix::net::SocketAddr>::init"]),
+        K("c16.unix.abstract_len", "net_mod.rs", NA + "c16_unix_abstract_len", "length passed to the kernel for an abstract name is offsetof(sun_path)+1+n  [KNOWN FINDING F8]", ["net::<impl SocketAddress for unix::net::SocketAddr>::as_ptr"], bounded="name length <= 4"),
     ],
 }
 
